@@ -189,7 +189,7 @@ def run_scatter(case):
 def gen_local(ctx):
     r = ctx.rng('local')
     cases = []
-    for i in range(ctx.n(8, 120)):
+    for i in range(ctx.n(8, 60)):
         dim = r.choice([1, 2, 2, 3])
         if i % 4 == 0:
             case = dict(src='structured', Nx=r.randrange(2, 4), Ny=r.randrange(2, 4), order=r.choice([1, 1, 2]), dim=dim, nomodel=True)
@@ -246,7 +246,7 @@ def local_expr(o):
 def gen_mb(ctx):
     r = ctx.rng('mb')
     out = []
-    for i in range(ctx.n(4, 60)):
+    for i in range(ctx.n(4, 30)):
         ne = r.randrange(2, 8)
         nmat = r.randrange(1, 4)
         ids = list(range(ne))
